@@ -647,6 +647,7 @@ func screenMain(args []string) error {
 	terms := fs.String("terms", "", "comma separated terminal names (default: all ECMA-48-family entries)")
 	mix := fs.String("mix", "draw", "draw | modes")
 	beh := fs.String("behaviours", "", "TLC-generated histories (JSON arrays of ops), run on each terminal in -terms")
+	behEvery := fs.Int("behevery", 1, "replay every n-th generated history only")
 	big := fs.Int("big", 0, "every big-th history uses a large screen (0: never)")
 	charset := fs.String("charset", "UTF-8", "locale character set")
 	fs.Parse(args)
@@ -676,6 +677,7 @@ func screenMain(args []string) error {
 		return fmt.Errorf("no terminal selected")
 	}
 	var planned [][]sop
+	nbeh := 0
 	if *beh != "" {
 		f, err := os.Open(*beh)
 		if err != nil {
@@ -685,6 +687,10 @@ func screenMain(args []string) error {
 		sc.Buffer(make([]byte, 1<<20), 1<<26)
 		for sc.Scan() {
 			var hist []sop
+			nbeh++
+			if (nbeh+int(*seed))%*behEvery != 0 {
+				continue
+			}
 			if err := json.Unmarshal(sc.Bytes(), &hist); err != nil {
 				return err
 			}
